@@ -126,6 +126,13 @@ fn run_once(sc: &Scenario, plan: Option<FaultPlan>, reference: Option<&Vec<Snap>
             if let Err(p) = td {
                 r.violate("C18.poisoned", format!("dropping the bars after the history panicked: {p}"));
             }
+            if r.violation.is_some() {
+                // whatever is left would panic again while being dropped (poisoned locks): leak it
+                let n = st.term.lock().n_calls;
+                let f = st.term.lock().failed_calls;
+                std::mem::forget(st);
+                return (r, n, snaps, f);
+            }
         } else {
             // leak rather than risk a double panic while unwinding through poisoned locks
             std::mem::forget(st);
